@@ -1,1 +1,50 @@
 // harness bodies for h2 src/proto/streams/stream.rs (compiled in-crate as `verif_h`, feature "verif")
+use super::*;
+
+/// C13.len: content-length bookkeeping over a sequence of <= 3 DATA payload lengths
+/// against a declared length (every u64): END_STREAM is clean iff the sum equals the
+/// declaration; an overshoot is rejected at the offending frame; HEAD responses admit
+/// only empty DATA; without a declaration everything is accepted.
+pub fn c13_len_content_length_sequence() {
+    let mut s = Stream::new(StreamId::from(1), 0, 0);
+    let kind: u8 = kani::any();
+    kani::assume(kind < 3);
+    let declared: u64 = kani::any();
+    s.content_length = match kind {
+        0 => ContentLength::Omitted,
+        1 => ContentLength::Head,
+        _ => ContentLength::Remaining(declared),
+    };
+    let lens: [usize; 3] = kani::any();
+    let k: usize = kani::any();
+    kani::assume(k <= 3);
+    let mut sum: u128 = 0;
+    let mut failed = false;
+    let mut i = 0;
+    while i < 3 {
+        if i < k && !failed {
+            kani::assume(lens[i] <= (1usize << 24));
+            let r = s.dec_content_length(lens[i]);
+            sum += lens[i] as u128;
+            let want_err = match kind {
+                0 => false,
+                1 => lens[i] != 0,
+                _ => sum > declared as u128,
+            };
+            assert!(r.is_err() == want_err, "C13.len: DATA beyond the declared content-length not rejected at the offending frame (or legal DATA rejected)");
+            if r.is_err() {
+                failed = true;
+            }
+        }
+        i += 1;
+    }
+    if !failed {
+        let end = s.ensure_content_length_zero();
+        let want_ok = kind != 2 || sum == declared as u128;
+        assert!(end.is_ok() == want_ok, "C13.len: END_STREAM accepted although the body is shorter than content-length (or a complete body rejected)");
+    }
+    kani::cover!(!failed && kind == 2 && k == 3, "three_frames_exact_or_short");
+    kani::cover!(failed && kind == 2, "overshoot");
+    kani::cover!(true, "end");
+    std::mem::forget(s);
+}
